@@ -604,11 +604,24 @@ impl Parser<'_, '_> {
                 | Token::Bool(_)
                 | Token::Integer(_, _)
                 | Token::Float(_, _)
+                | Token::Hex(_)
                 | Token::Hyphen
                 | Token::IpV4(_)
                 | Token::IpV6(_)
                 | Token::Asn(_)
                 | Token::String(_)
+                | Token::Char(_)
+                | Token::FStringStart
+                | Token::Keyword(
+                    Keyword::If
+                        | Keyword::Match
+                        | Keyword::While
+                        | Keyword::For
+                        | Keyword::Super
+                        | Keyword::Pkg
+                        | Keyword::Dep
+                        | Keyword::Std
+                )
         )
     }
 
